@@ -1,15 +1,21 @@
-(* driver.ml — line-oriented driver around the extracted models.
+(* prelude.ml — shared part of the line-oriented driver around the extracted models.
    One request per input line: "<cmd> <arg> <arg> ...", one answer line per request.
    Encodings: integers in decimal; a byte string in hex, "-" when empty;
-   a list of byte strings joined by ",", "." when the list is empty. *)
+   a list of byte strings joined by ",", "." when the list is empty.
+   The final driver is prelude.ml ++ handlers/*.ml ++ main.ml (concatenated by tools/genbuild.py). *)
 open Pffmodel
 
 let rec pos_of_int (i : int) : positive =
   if i = 1 then XH else if i land 1 = 0 then XO (pos_of_int (i lsr 1)) else XI (pos_of_int (i lsr 1))
 let n_of_int (i : int) : n = if i = 0 then N0 else Npos (pos_of_int i)
+let z_of_int (i : int) : z = if i = 0 then Z0 else if i > 0 then Zpos (pos_of_int i) else Zneg (pos_of_int (- i))
 let rec int_of_pos = function XH -> 1 | XO p -> 2 * int_of_pos p | XI p -> 2 * int_of_pos p + 1
 let int_of_n = function N0 -> 0 | Npos p -> int_of_pos p
+let int_of_z = function Z0 -> 0 | Zpos p -> int_of_pos p | Zneg p -> - (int_of_pos p)
 let rec int_of_nat = function O -> 0 | S n -> 1 + int_of_nat n
+let rec nat_of_int (i : int) : nat = if i <= 0 then O else S (nat_of_int (i - 1))
+let ni (s : string) : n = n_of_int (int_of_string s)
+let zi (s : string) : z = z_of_int (int_of_string s)
 
 let byte_tab : byte array = Array.of_list all_bytes
 let byte_of_int (i : int) : byte = byte_tab.(i)
@@ -29,26 +35,11 @@ let list_of_arg (s : string) : byte list list =
   if s = "." then [] else List.map bytes_of_hex (String.split_on_char ',' s)
 let arg_of_list (l : byte list list) : string =
   if l = [] then "." else String.concat "," (List.map hex_of_bytes l)
+(* lists of integers: "1,2,3", "." when empty *)
+let ints_of_arg (s : string) : int list =
+  if s = "." then [] else List.map int_of_string (String.split_on_char ',' s)
+let arg_of_ints (l : int list) : string =
+  if l = [] then "." else String.concat "," (List.map string_of_int l)
 
-let handle (line : string) : string =
-  match String.split_on_char ' ' line with
-  | ["vote"; bs; cs] ->
-      let (o, s) = drv_vote (n_of_int (int_of_string bs)) (list_of_arg cs) in
-      Printf.sprintf "%s %d" (hex_of_bytes o) (int_of_n s)
-  | ["diff"; bs; s1; s2; f1; f2] ->
-      let i x = n_of_int (int_of_string x) in
-      let ((d, t), same) = drv_diff (i bs) (i s1) (i s2) (bytes_of_hex f1) (bytes_of_hex f2) in
-      Printf.sprintf "%d %d %d" (int_of_n d) (int_of_n t) (if same then 1 else 0)
-  | ["diffdir"; bs; rk; rv; ok; ov] ->
-      let (((d, t), (c, n)), e) = drv_diffdir (n_of_int (int_of_string bs)) (list_of_arg rk) (list_of_arg rv) (list_of_arg ok) (list_of_arg ov) in
-      Printf.sprintf "%d %d %d %d %d" (int_of_n d) (int_of_n t) (int_of_n c) (int_of_n n) (int_of_n e)
-  | _ -> "ERR bad request"
-
-let () =
-  try
-    while true do
-      let line = input_line stdin in
-      let out = try handle line with e -> "ERR " ^ Printexc.to_string e in
-      print_string out; print_char '\n'
-    done
-  with End_of_file -> ()
+let handlers : (string, string list -> string) Hashtbl.t = Hashtbl.create 64
+let register (name : string) (f : string list -> string) : unit = Hashtbl.replace handlers name f
